@@ -353,12 +353,14 @@ func (e *erasureCodingPartStore) getPartWithHealing(ctx context.Context, tx data
 func (e *erasureCodingPartStore) openPartReaders(ctx context.Context, tx database.Tx, partId partstore.PartId) ([]io.ReadCloser, []bool, error) {
 	readers := make([]io.ReadCloser, e.totalShards)
 	healShards := make([]bool, e.totalShards)
+	notFound := 0
 	for i := 0; i < e.totalShards; i++ {
 		rc, err := e.partStores[i].GetPart(ctx, tx, partId)
 		if err != nil {
 			if errors.Is(err, partstore.ErrPartNotFound) {
 				readers[i] = nil
 				healShards[i] = true
+				notFound++
 				continue
 			}
 			closePartReaders(readers)
@@ -384,6 +386,23 @@ func (e *erasureCodingPartStore) openPartReaders(ctx context.Context, tx databas
 			continue
 		}
 		readers[i] = rc
+	}
+	// A part cannot be reconstructed from fewer than dataShards shards. Without
+	// this check the reader would see no frame at all in the first stripe and
+	// report a clean end of part: a part whose shards are all gone (deleted or
+	// never written) would read as an empty part instead of "not found".
+	opened := 0
+	for _, rc := range readers {
+		if rc != nil {
+			opened++
+		}
+	}
+	if opened < e.dataShards {
+		closePartReaders(readers)
+		if notFound == e.totalShards {
+			return nil, nil, partstore.ErrPartNotFound
+		}
+		return nil, nil, fmt.Errorf("erasurecoding: only %d of %d shards are readable, %d are needed", opened, e.totalShards, e.dataShards)
 	}
 	return readers, healShards, nil
 }
